@@ -1,7 +1,8 @@
 """C14: regenerates coq/Gen/OverrideOps.v from /repo's current sources (through
 harness/cmd/goextract): the operator tables of the override evaluators, the lookup order of
 resolveOverrideValue, the fields CloneModuleForOverrides copies and the locations
-ProcessOverrides and its helpers write.  Obligations over them: coq/Overrides/GenOblig.v."""
+ProcessOverrides and its helpers (incl. overrideRemapExprHandles' remapPtr) write.
+Obligations over them: coq/Overrides/GenOblig.v."""
 import re
 
 PO = "ir/process_overrides.go"
@@ -69,6 +70,15 @@ LOCAL_ROOTS = {"oldExprs", "newExprs", "handleMap", "kind", "eo", "ok", "ch", "_
 def classify_write(fn, lhs):
     """LHS of an assignment inside ProcessOverrides / helpers -> location class, None for
     function-local storage, ('?', lhs) when not understood."""
+    if fn == "overrideRemapExprHandles":
+        # the expression kind is a by-value copy (k, s, l, q, m, lv, qv) and the slices are fresh
+        # (comps, incomings): only `*p` (remapPtr) writes through storage shared with the
+        # caller's module, the pointee of an optional operand of an image expression
+        if lhs == "*p":
+            return "expression-pointer"
+        if re.fullmatch(r"(s|l|q|m|lv|qv)\.\w+", lhs) or re.fullmatch(r"(comps|incomings)\[\w+\]", lhs) or lhs in ("h", "comps", "incomings", "s", "l", "q", "m", "k", "lv", "qv", "remap", "remapPtr"):
+            return None
+        return ("?", "%s: %s" % (fn, lhs))
     if lhs.startswith("module.GlobalExpressions"):
         return "global-expressions"
     if lhs.startswith("module.Constants"):
@@ -118,9 +128,10 @@ def generate(g, tools):
         {"kind": "assigns", "file": PO, "name": "remapBlockHandles"},
         {"kind": "assigns", "file": PO, "name": "evaluateGlobalInitializers"},
         {"kind": "assigns", "file": PO, "name": "filterEmitsInBlock"},
+        {"kind": "assigns", "file": PO, "name": "overrideRemapExprHandles"},
     ]
     (consts, ebf, euf, ebf_src, euf_src, mol, mlfp_src, ltf_src, rov_src, msl_sw, msl_as,
-     a_clone, a_po, a_rfe, a_rbh, a_egi, a_feb) = g.extract(tools, reqs)
+     a_clone, a_po, a_rfe, a_rbh, a_egi, a_feb, a_oreh) = g.extract(tools, reqs)
     S = g.coq_string
 
     def pairs(name, rows, comment=""):
@@ -181,7 +192,7 @@ def generate(g, tools):
     # writes
     wr = []
     for fn, rows in (("ProcessOverrides", a_po), ("rebuildFunctionExpressions", a_rfe), ("remapBlockHandles", a_rbh),
-                     ("evaluateGlobalInitializers", a_egi), ("filterEmitsInBlock", a_feb)):
+                     ("evaluateGlobalInitializers", a_egi), ("filterEmitsInBlock", a_feb), ("overrideRemapExprHandles", a_oreh)):
         for kind, lhs, _rhs in rows:
             if kind != "assign":
                 continue
